@@ -32,7 +32,7 @@ TRUST_COMMON = [
 # not_decided (clauses of the property out of reach of this family), technique.
 _ALL = {
     "C01": dict(
-        want=["T1", "T3", "D1", "D2", "D6", "D6b", "M1", "M2", "P2", "P3", "K1@reduce", "K4@reduce", "K2", "M6", "M8", "M5", "P26"],
+        want=["T1", "T3", "D1", "D2", "D6", "D6b", "M1", "M2", "P2", "P3", "K1@reduce", "K4@reduce", "K2", "M6", "M8", "M5", "P26", "P26b", "P2c"],
         explanation=("Static analysis of /repo's source. Decides: every row reducer (ScalarFuncs) normalised to a decision "
                      "table over NULL/NZ/ORD atoms equals the hand-written specification of the operation it is dispatched as "
                      "(size, count, sum, mean=sum/count, min, max, first, last); op->kernel->reducer dispatch by constant "
@@ -40,7 +40,8 @@ _ALL = {
                      "key counts with one container kind; null writer/reader tables agree; null-code guard and row counter "
                      "in the reduction loop."
                      ' Also: merges of partial results receive and skip by counts (M1, M2, D2); pointer lookups and slice-start normalisation on chunked keys (M5, M6); a key already cut by a slice is never paired with the raw mask (M8); the null code survives every re-mapping (K2); the per-group count array of the reduction loop is 64 bit (K4).'
-                     ' Means by true division (P26).'),
+                     ' Means by true division (P26).'
+                     ' mean_from_sum_count operands are pandas objects (P26b); per-column counts (P2c).'),
         not_decided=["that _group_by_reduce visits every selected row exactly once beyond K1/K6 (loop-bound arithmetic)",
                      "label-set equality with pandas; polars/arrow conversions (third party)"],
         technique="GCNF decision tables vs spec tables; constant-propagated dispatch; fact-walker dominance; path rules",
@@ -110,24 +111,26 @@ _ALL = {
         technique="fact-walker dominance over inferred code variables; null-preservation idiom table",
     ),
     "C07": dict(
-        want=["P5", "P6", "S2", "P11", "P2", "D2", "D6b", "K2", "P12", "P5b", "P25"],
+        want=["P5", "P6", "S2", "P11", "P2", "D2", "D6b", "K2", "P12", "P5b", "P25", "P27", "P26b", "P2c"],
         explanation=("Decides that transform indexes code-ordered arrays only: the base of every subscript indexed by the row "
                      "codes carries no sort-permutation taint (P5), has a null slot (P6), is indexed after unification (S2), "
                      "and the transform path restores the input's index/container (P11)."
                      ' Also: merge classes (D2), null-code preservation (K2), polars receives datetime results as integers only without null sentinel (P12), label-sorted arrays are filtered only by selectors in label-sorted order (P5b).'
-                     ' Group-sorted layout sized by label-ordered counts (P25).'),
+                     ' Group-sorted layout sized by label-ordered counts (P25).'
+                     " Transform results carry the inputs' common index whenever there is one (P27); mean_from_sum_count is handed pandas objects (P26b); every column is divided by its own counts (P2c)."),
         not_decided=["value equality of broadcast and reduction beyond the index-space argument (the reduction itself is C01)"],
         technique="taint analysis of index spaces; typestate; path rule",
     ),
     "C08": dict(
-        want=["T1", "U1", "U2", "K1@cumulative", "K3@cumulative", "K4@cumulative", "T3", "P1", "P8", "D4", "K7"],
+        want=["T1", "U1", "U2", "K1@cumulative", "K3@cumulative", "K4@cumulative", "T3", "P1", "P8", "D4", "K7", "P28"],
         explanation=("Decides the structure of the per-group prefix reduction: reducer tables (T1, skip and non-skip pairs); "
                      "the running value is read from the output at the group's previous accepted row (U1) and per-group "
                      "bookkeeping is updated only on accepted rows (U2); null keys skipped (K1), masked rows do not interfere "
                      "(K3); accumulator dtype table has no float detour (T3); temporal cast/restore pairing on all paths "
                      "(P1); null-key post-fill (P8); cum-op -> reducer dispatch (D4)."
                      ' Also: the cumulative count array is at least 32 bit (K4).'
-                     ' The cumulative kernels receive boolean masks only (K7).'),
+                     ' The cumulative kernels receive boolean masks only (K7).'
+                     ' Converted cumulative results are not passed through dtype-changing pandas operations (P28).'),
         not_decided=["'last cumulative value equals the reduction' as a value relation (follows by induction, not performed)"],
         technique="GCNF tables; loop-body obligations; path pairing rule",
     ),
@@ -157,23 +160,25 @@ _ALL = {
         technique="fact walker; expression normal-form comparison; decorator-name rule",
     ),
     "C11": dict(
-        want=["P4", "P9", "P7b", "P11b", "P13", "M5", "P5b", "L1", "L2", "A3c", "D7", "M9", "A11"],
+        want=["P4", "P9", "P7b", "P11b", "P13", "M5", "P5b", "L1", "L2", "A3c", "D7", "M9", "A11", "P2c", "P27"],
         explanation=("Decides two structural necessary conditions: the sort permutation derived from the labels reaches the "
                      "result and count frames on every non-transform path (P4); key names are assigned on every constructing "
                      "path (P9)."
                      ' Also: first-appearance order of the chunk-wise label union (P7b); common index of group-sorted results (P11b); generated names only for None (P13); pointer offsets (M5); selector index space (P5b); the label sort key ranks each level by the inverse permutation, in level order, and is the identity for categorical / already sorted labels (L1); the result is squeezed to 1-D exactly for a single 1-D input and loses its name only when the input had none (L2).'
                      ' std/var forward observed_only (A3c, D7); the merge target dtype comes from the merged partials (M9); no shortcut around the lexicographic sort for several label levels (L1).'
-                     ' Facade key order (A11).'),
+                     ' Facade key order (A11).'
+                     ' Each column is computed with its own counts (P2c); transform index (P27).'),
         not_decided=["actual order, category order, lexicographic order, column independence (value-level)"],
         technique="path rules over _apply_gb_reduction / __init__",
     ),
     "C12": dict(
-        want=["P1", "T2", "T3", "K5", "P10", "K4b", "P12", "F1b", "P7b", "M7", "P17", "D7c", "M9", "P24", "O1"],
+        want=["P1", "T2", "T3", "K5", "P10", "K4b", "P12", "F1b", "P7b", "M7", "P17", "D7c", "M9", "P24", "O1", "P28", "P26b"],
         explanation=("Decides the dtype/exactness clauses: temporal cast<->restore pairing on all paths (P1); selection "
                      "reducers never do arithmetic on values (T2-L4); accumulator dtype table (T3); dtype provenance in "
                      "rolling selection paths (K5); unit-preserving restoration (P10)."
                      ' Also: identifier widths (K4b); polars NaT preservation (P12); RangeIndex step (F1b); container-independent label order (P7b); one permutation (M7); value columns are never stacked into one array (P17).'
-                     ' The group sums are cast to float64 before they are squared in var (D7c); merge target dtype per column (M9); temporal integer views (P24); no operation writes a caller-owned container (O1).'),
+                     ' The group sums are cast to float64 before they are squared in var (D7c); merge target dtype per column (M9); temporal integer views (P24); no operation writes a caller-owned container (O1).'
+                     ' No .mask/.where on converted results (P28); temporal means through pandas objects (P26b).'),
         not_decided=["equivalence of containers (third-party conversions)", "integer-sum wrap beyond the accumulator dtype table"],
         technique="path pairing; table laws; dtype provenance",
     ),
